@@ -243,3 +243,9 @@ def raw_repr(s):
     a = None if s._abs_stale else raw(s._abs._messages)
     r = None if s._rel_stale else raw(s._rel._messages)
     return (s._abs_stale, s._rel_stale, a, r)
+
+
+def internals(s):
+    """ticks of INTERNAL (bar line / cap) messages of the absolute view, on a private copy"""
+    c = clone(s)
+    return sorted(m.time for m in c.messages_abs() if m.message_type is MT.INTERNAL)
